@@ -714,8 +714,12 @@ class RewriteRuleSet:
                         if initializer.name in initializers:
                             if verbose:
                                 print(f"Initializer {initializer.name} already exists.")
-                            continue
-                    for initializer in delta.new_initializers:
+                            # Do not overwrite the registered value (its users would be left
+                            # with a dangling input): register the new one under a fresh name.
+                            suffix = 1
+                            while f"{initializer.name}_{suffix}" in initializers:
+                                suffix += 1
+                            initializer.name = f"{initializer.name}_{suffix}"
                         initializers[initializer.name] = initializer  # type: ignore[index]
                 # TODO: This does not yet handle the problem of determining the correct insertion point
                 # for inserted nodes in the case of patterns with multiple output-nodes. The following
